@@ -253,6 +253,51 @@ theorem no_self_recursion {L} (I : LayoutI L) (c : Cfg) (lay : L) (inputs : List
   intro id hid
   simp [playMacro, hid]
 
+/-! ## Findings: dynamic-macro actions that fire late (KNOWN_FINDINGS.jsonl, C19, L lines)
+
+`no_self_recursion` speaks about the guard set while the items of a macro are still in the replay
+queue.  The guard dies with the queue: `tick_replay_state` sets the replay state to `None` one pop
+after the last item was handed to `layout.event`, whether or not the layout has acted on the events
+yet.  A play action that the layout performs later than that (tap-dance item at the dance timeout,
+hold of a tap-hold, tap of a tap-hold behind another undecided tap-hold, a plain play key queued
+behind an undecided tap-hold) finds no replay running and starts the macro again - from the macro's
+own events, for ever.  Likewise the stop action drops ONE item, the last one recorded, which is the
+stop key's press only if the action fires on that press. -/
+
+/-- a layout with one key (32) whose action `(dynamic-macro-play 1)` fires `T` ticks after its press
+(what a tap-dance item or the hold of a tap-hold does); the state is the countdown -/
+def lateI (T : Nat) : LayoutI (Option Nat) :=
+  { event := fun l e => if e.press && e.osc == 32 && l.isNone then some T else l,
+    tick := fun l => match l with
+      | none => (none, [], [])
+      | some 0 => (none, [.play 1], [])
+      | some (n + 1) => (some n, [], []) }
+
+/-- macro 1 is a tap of that key -/
+def lateK : K (Option Nat) := { (K.init none) with store := [(1, [.press 32 1, .release 32 1])] }
+
+/-- **late_play_self_recursion_counterexample** (the code as it is; either delay behaviour).  ONE
+physical press of the key, then 60 ms without any input: macro 1 - a tap of that key - has been
+replayed five times, each replay started by the play action that the previous replay's own press
+caused, each time with no replay running any more (so `playMacro` does not refuse).  The statement
+of C19 ("a macro never replays itself recursively") and the documentation ("dynamic macros cannot
+recurse") are violated; reproduced on the real code by the `C19 L` lines (tap-dance, tap-hold). -/
+theorem late_play_self_recursion_counterexample (beh : Beh) :
+    ∃ k', run (lateI 10) { fix := true, beh := beh, maxPresses := 128 } lateK
+        [.key ⟨true, 32⟩, .tick 60] = .ok k' ∧
+      k'.fed = [⟨true, 32⟩, ⟨false, 32⟩, ⟨true, 32⟩, ⟨false, 32⟩, ⟨true, 32⟩, ⟨false, 32⟩,
+                ⟨true, 32⟩, ⟨false, 32⟩, ⟨true, 32⟩, ⟨false, 32⟩] := by
+  cases beh <;> exact ⟨_, rfl, rfl⟩
+
+/-- **stop_on_release_keeps_stop_key_counterexample**.  Recording: `a` (30) tapped, then the stop
+key (31) pressed and released, the stop action firing on the release (the tap of a tap-hold).  The
+stored macro still contains the press of the stop key, and a release is synthesized for it: only
+the last recorded item is dropped.  C19 wants the stop key itself excluded. -/
+theorem stop_on_release_keeps_stop_key_counterexample :
+    stopMacro true [] 0 (recordRelease 31 (recordPress [] 128 31 (recordRelease 30
+        (recordPress [] 128 30 (some (Rec.new 1))).1)).1) =
+      .ok (none, some (1, [.press 30 0, .release 30 0, .press 31 0, .release 31 0])) := rfl
+
 /-! ## No crash -/
 
 /-- **stop_no_crash** (full, fixed code).  No history makes the dynamic-macro code of the fixed tree
